@@ -150,11 +150,19 @@ class Interp:
     def ev_Subscript(self, e, st):
         out = []
         for base, s in self.ev(e.value, st):
+            seq = is_t(base) and base[1] in ('tuple', 'list')
             if isinstance(e.slice, ast.Slice):
-                out.append((T('slice', base, unparse(e.slice)), s))
+                if seq and all(x is None or isinstance(const_value(x), int) for x in (e.slice.lower, e.slice.upper, e.slice.step)):
+                    sl = slice(*(None if x is None else const_value(x) for x in (e.slice.lower, e.slice.upper, e.slice.step)))
+                    out.append((T(base[1], *base[2:][sl]), s))
+                else:
+                    out.append((T('slice', base, unparse(e.slice)), s))
             else:
                 for i, s2 in self.ev(e.slice, s):
-                    out.append((T('index', base, i), s2))
+                    if seq and is_c(i) and isinstance(i[1], int) and not isinstance(i[1], bool) and -len(base[2:]) <= i[1] < len(base[2:]):
+                        out.append((base[2:][i[1]], s2))
+                    else:
+                        out.append((T('index', base, i), s2))
         return out
 
     def ev_Tuple(self, e, st):
@@ -187,8 +195,39 @@ class Interp:
         return [(T('dict', unparse(e)), st)]
 
     def ev_ListComp(self, e, st):
+        # a comprehension with one generator over a concrete abstract list is evaluated element by element
+        if len(e.generators) == 1 and not e.generators[0].is_async:
+            g = e.generators[0]
+            res = []
+            for itv, s0 in self.ev(g.iter, st):
+                if not (is_t(itv) and itv[1] in ('list', 'tuple')):
+                    res.append((T('comp', unparse(e)), s0))
+                    continue
+                work = [((), s0)]
+                for el in itv[2:]:
+                    nxt = []
+                    for acc, s in work:
+                        for s1 in self.assign_to(g.target, el, s):
+                            conds = [(True, s1)]
+                            for c in g.ifs:
+                                conds = [(b2, s3) for b, s2 in conds for b2, s3 in (self.truth(c, s2) if b else [(False, s2)])]
+                            for b, s2 in conds:
+                                if b:
+                                    for v, s3 in self.ev(e.elt, s2):
+                                        nxt.append((acc + (v,), s3))
+                                else:
+                                    nxt.append((acc, s2))
+                    work = nxt
+                for acc, s in work:
+                    s = s.copy()
+                    s.env = dict(st.env)        # comprehension variables do not leak
+                    res.append((T('list', *acc), s))
+            return res
         return [(T('comp', unparse(e)), st)]
-    ev_GeneratorExp = ev_SetComp = ev_DictComp = ev_ListComp
+
+    def ev_GeneratorExp(self, e, st):
+        return [(T('comp', unparse(e)), st)]
+    ev_SetComp = ev_DictComp = ev_GeneratorExp
 
     def ev_BinOp(self, e, st):
         out = []
@@ -200,6 +239,8 @@ class Interp:
                     out.append((C(v), s2))
                 elif is_c(l) and is_c(r) and isinstance(e.op, ast.Add) and isinstance(l[1], str) and isinstance(r[1], str):
                     out.append((C(l[1] + r[1]), s2))
+                elif isinstance(e.op, ast.Add) and is_t(l) and is_t(r) and l[1] == r[1] and l[1] in ('list', 'tuple'):
+                    out.append((T(l[1], *(l[2:] + r[2:])), s2))
                 else:
                     out.append((T(type(e.op).__name__, l, r), s2))
         return out
@@ -207,7 +248,13 @@ class Interp:
     def ev_UnaryOp(self, e, st):
         if isinstance(e.op, ast.Not):
             return [(C(not b), s) for b, s in self.truth(e.operand, st)]
-        return [(T(type(e.op).__name__, v), s) for v, s in self.ev(e.operand, st)]
+        out = []
+        for v, s in self.ev(e.operand, st):
+            if is_c(v) and isinstance(v[1], (int, float)) and not isinstance(v[1], bool) and isinstance(e.op, (ast.USub, ast.UAdd)):
+                out.append((C(-v[1] if isinstance(e.op, ast.USub) else v[1]), s))
+            else:
+                out.append((T(type(e.op).__name__, v), s))
+        return out
 
     def ev_BoolOp(self, e, st):
         # value semantics: `a or b` is a when a is truthy, else b ; `a and b` is a when a is falsy, else b
